@@ -51,11 +51,15 @@ def run():
                 post = ['ReleaseDataset d1']
             else:
                 kind = ('CF' if jit else 'IF') if full else ('CL' if jit else 'IL')
-                pre = ['AllocCache c1 any any jit=%d' % (i % 2), 'InitCache c1 K1']
+                pre = ['AllocCache c1 s1 m1 jit=%d' % (i % 2), 'InitCache c1 K1']      # (named slots: a released cache becomes inaccessible memory)
                 if full:
                     pre += ['AllocDataset d1 dm1 nchunks=1', 'InitDatasetChunk d1 c1 1']
                 call = ['CreateVm v1 %s %s %s v2=%d hard=%d secure=%d large=%d' % (kind, 'none' if (full and not longkey) else 'c1', 'd1' if full else 'none', i % 2, hard, secure, lg)]      # (a full-memory VM may be given the cache as well: then it copies its key)
-                post = (['Hash v1 I1 key=K1'] if (not full or ck.thorough) else []) + ['DestroyVm v1'] + (['ReleaseDataset d1'] if full else []) + ['ReleaseCache c1']
+                # (both release orders are legal: the cache / dataset may go before the VM that was bound to it)
+                if i % 2:
+                    post = (['Hash v1 I1 key=K1'] if (not full or ck.thorough) else []) + (['ReleaseDataset d1'] if full else []) + ['ReleaseCache c1', 'DestroyVm v1']
+                else:
+                    post = (['Hash v1 I1 key=K1'] if (not full or ck.thorough) else []) + ['DestroyVm v1'] + (['ReleaseDataset d1'] if full else []) + ['ReleaseCache c1']
             text = pre + ['FailAt %d' % k] + call
             # the failed call is followed by a fault-free one that must succeed (unless huge pages are required), and a clean teardown
             if large:
@@ -82,7 +86,7 @@ def run():
         elif op == 'alloc_dataset':
             call, post, pre = ['AllocDataset d1 dm1 large=1'], ['ReleaseDataset d1'], []
         else:
-            pre = ['AllocCache c1 any any jit=%d' % (i % 2), 'InitCache c1 K1']
+            pre = ['AllocCache c1 s1 m1 jit=%d' % (i % 2), 'InitCache c1 K1']      # (named slots: a released cache becomes inaccessible memory)
             call = ['CreateVm v1 %s c1 none v2=%d hard=%d secure=%d large=1' % ('CL' if jit else 'IL', i % 2, i % 2, (i // 2) % 2 if jit else 0)]
             post = ['Hash v1 I1 key=K1', 'DestroyVm v1', 'ReleaseCache c1']
         text = ['HugePool 4096'] + pre + ['FailAt %d' % k] + call + (call if k > 0 else []) + post
